@@ -33,11 +33,12 @@ var universe = []RS{
 	{ResourceType: "repository", Resource: "", Action: "pull"},
 	// an opaque one-word scope with more colons than the type:resource:action syntax has
 	{ResourceType: "urn:a:b:c"},
-	{ResourceType: "registry", Resource: "catalog", Action: "pull"},
+	// the triple of three empty fields: a set element like any other (it is what "::" parses to)
+	{ResourceType: "", Resource: "", Action: ""},
 	// thorough only:
+	{ResourceType: "registry", Resource: "catalog", Action: "pull"},
 	{ResourceType: "repository", Resource: "catalog", Action: "push"},
 	{ResourceType: "repository", Resource: "a", Action: ""},
-	{ResourceType: "", Resource: "", Action: ""},
 }
 
 // outside holds probes that are never members.
